@@ -67,3 +67,93 @@ def _():
     d = _imsc(TT % ("", '<body><div><p><span tts:textShadow="1px 1px, 2px 2px">x</span></p></div></body>'))
     sp = list(list(list(d.get_body())[0])[0])[0]
     if sp.get_style(s.StyleProperties.TextShadow) is None: return 'tts:textShadow="1px 1px, 2px 2px" (white space after the comma) is rejected'
+
+
+# ---- further shapes of the repaired findings (must pass) and the finding that remains
+def _logs(xml):
+    """log records of ttconv.imsc while reading"""
+    import logging
+    recs = []
+    class H(logging.Handler):
+        def emit(self, r): recs.append(r.getMessage())
+    lg = logging.getLogger("ttconv"); h = H(); old = lg.level; lg.addHandler(h); lg.setLevel(logging.DEBUG)
+    off = logging.root.manager.disable; logging.disable(logging.NOTSET)       # witnesses.run silences logging
+    try:
+        d = _imsc(xml)
+    finally:
+        lg.removeHandler(h); lg.setLevel(old); logging.disable(off)
+    return d, recs
+
+
+@witness("C04", "seq-region-set-children")
+def _():
+    # a region with timeContainer="seq" in the (parallel) layout: its set children play one after the other, the region stays indefinite
+    try:
+        d = _imsc(TT % ("", '<head><layout><region xml:id="r1" timeContainer="seq"><set dur="1s" tts:display="none"/><set dur="1s" tts:opacity="0.5"/></region></layout></head><body region="r1"><div><p>a</p></div></body>'))
+    except TypeError as e:
+        return f"a seq region with set children aborts the read: {e}"
+    r = d.get_region("r1"); steps = [(a.begin, a.end) for a in r.iter_animation_steps()]
+    if r.get_end() is not None: return f"the region ends at {r.get_end()} (the end of its last set) instead of staying indefinite"
+    if steps != [(Fraction(0), Fraction(1)), (Fraction(1), Fraction(2))]: return f"set children of a seq region are read as {steps}"
+
+
+@witness("C04", "lax-parameter-prefix")
+def _():
+    d = _imsc(TT % ('ttp:frameRate="25x" ttp:cellResolution="40 20 x"', '<body><div><p begin="50f" end="100f">a</p></div></body>'))
+    if _p(d).get_begin() != Fraction(50, 30): return f'ttp:frameRate="25x" is not ignored: begin="50f" is {_p(d).get_begin()} s'
+    if d.get_cell_resolution().columns != 32: return 'ttp:cellResolution="40 20 x" is not ignored'
+
+
+@witness("C04", "lax-trailing-line-feed")
+def _():
+    d = _imsc(TT % ("", '<body><div><p begin="1s&#10;" end="5s" tts:fontSize="10px&#10;">a</p></div></body>'))
+    import ttconv.style_properties as s
+    if _p(d).get_begin() is not None: return 'begin="1s\\n" is accepted'
+    if _p(d).get_style(s.StyleProperties.FontSize) is not None: return 'tts:fontSize="10px\\n" is accepted'
+
+
+@witness("C04", "lax-style-syntax")
+def _():
+    import ttconv.style_properties as s
+    d, logs = _logs(TT % ('xmlns:itts="http://www.w3.org/ns/ttml/profile/imsc1#styling"', '<body><div><p itts:fillLineGap="yes" tts:textDecoration="blink" tts:position="">a</p></div></body>'))
+    p = _p(d)
+    got = [x.__name__ for x in (s.StyleProperties.FillLineGap, s.StyleProperties.TextDecoration, s.StyleProperties.Position) if p.get_style(x) is not None]
+    if got: return f'malformed itts:fillLineGap="yes" / tts:textDecoration="blink" / tts:position="" are accepted: {got}'
+    if len(logs) < 3: return f"only {len(logs)} log records for three malformed style attributes"
+
+
+@witness("C04", "tt-extent-not-integer")
+def _():
+    d, logs = _logs(TT % ('tts:extent="1.5px 2px"', '<body/>'))
+    if (d.get_px_resolution().width, d.get_px_resolution().height) != (1920, 1080): return f'tts:extent="1.5px 2px" on tt is read as {d.get_px_resolution()}'
+    if not logs: return "no log record"
+
+
+@witness("C04", "nested-style-invalid-value")
+def _():
+    try:
+        d = _imsc(TT % ("", '<head><layout><region xml:id="r1"><style tts:origin="1em 1em" tts:color="red"/></region></layout></head><body/>'))
+    except ValueError:
+        return 'a <style tts:origin="1em 1em"/> nested in a region aborts the read with ValueError'
+    import ttconv.style_properties as s
+    if d.get_region("r1").get_style(s.StyleProperties.Color) is None: return "the well-formed sibling attribute of the nested style is lost"
+
+
+@witness("C04", "unknown-attribute-not-logged")
+def _():
+    d, logs = _logs(TT % ("", '<body><div><p tts:bogus="x" xml:base="y" begin="1s" end="2s">a</p></div></body>'))
+    if not logs: return "attributes the reader does not know (tts:bogus, xml:base) are ignored without any log record"
+
+
+@witness("C04", "style-invalid-value-shadows")
+def _():
+    import ttconv.style_properties as s
+    d = _imsc(TT % ("", '<head><styling><style xml:id="a" tts:extent="10c 2c"/><style xml:id="b" tts:extent="1em 1em" style="a"/></styling></head><body><div><p style="b">x</p></div></body>'))
+    v = _p(d).get_style(s.StyleProperties.Extent)
+    if v is None: return 'tts:extent="1em 1em" (rejected by the model) on style b shadows the tts:extent="10c 2c" that b inherits from style a'
+
+
+@witness("C04", "zero-aspect-ratio")
+def _():
+    d = _imsc(TT % ('ttp:displayAspectRatio="0 9"', '<body/>'))
+    if d.get_display_aspect_ratio() is not None: return f'ttp:displayAspectRatio="0 9" is read as {d.get_display_aspect_ratio()}'
